@@ -336,7 +336,9 @@ def run(ctx):
 
     # ------------------------------------------------ updateDropIns
     up = ctx.fn1("Oomd::DropInServiceAdaptor::updateDropIns")
-    ls = [l for l in loops(up) if l["stmt"] is not None and up.nodes[l["stmt"]]["k"] == "rangefor"]
+    rmv_ = up.calls("Engine::removeDropInConfig")
+    ls = [l for l in loops(up) if l["stmt"] is not None and up.nodes[l["stmt"]]["k"] in ("rangefor", "for") and
+          any(up.pos_of(i)[0] in l["body"] or l["stmt"] in list(up.ancestors(i)) for i in rmv_)]
     if len(ls) != 1:
         ctx.broken("update:loop", "anchor", up.loc(), "expected one loop over the drained queue")
     else:
@@ -349,7 +351,10 @@ def run(ctx):
         for i in addc:
             ctx.check(fi.must(i, "removed"), "update:remove-before-add", "order", up.loc(i),
                       "a tag is removed before it is (re-)added", "addDropInConfig can run without the tag having been removed first")
-            ctx.check(has_fact(fi.guards(i), True, "unit"), "update:add-only-with-unit", "guarded_by", up.loc(i),
+            Xu = Expander(P, up)
+            a0 = Xu(up.nodes[i]["args"][1]) if len(up.nodes[i].get("args", [])) > 1 else ""
+            gk = [k for k, p in fi.guards(i) if p is True and not k.startswith("(")]
+            ctx.check(has_fact(fi.guards(i), True, "unit") or any(re.search(r"\b%s\b" % re.escape(k.split(".")[0]), up.text(up.nodes[i]["args"][1])) for k in gk), "update:add-only-with-unit", "guarded_by", up.loc(i),
                       "add only for entries carrying a unit", "add attempted for a removal entry")
             a = [up.text(x) for x in up.nodes[i]["args"]]
             r0 = [up.text(x) for x in up.nodes[rmv[0]]["args"]] if rmv else ["?"]
